@@ -84,6 +84,22 @@ impl<T: Qcow2IoOps> Qcow2Dev<T> {
                 if new_clusters <= old_clusters {
                     // the clusters holding the table have room for the
                     // new entries: update l1 entries
+
+                    // What is behind the old entries on disk has never been
+                    // part of the table and may hold anything. Write the
+                    // newly active entries (all unmapped in ram) before the
+                    // header makes them valid; whatever is dirty goes out
+                    // first, in the usual order.
+                    self.flush_refcount().await?;
+                    self.flush_mapping(&l1_table).await?;
+                    let blk_entries = (1usize << info.block_size_shift) / entry_size;
+                    let first = l1_table.header_entries() / blk_entries * blk_entries;
+                    for idx in (first..l1_entries).step_by(blk_entries) {
+                        l1_table.set_dirty(idx);
+                    }
+                    self.flush_top_table(&*l1_table).await?;
+                    self.call_fsync(0, usize::MAX, 0).await?;
+
                     self.flush_header_for_l1_table(l1_off, l1_entries).await?;
                     l1_table.update_header_entries(l1_entries.try_into().unwrap());
                 } else {
